@@ -174,6 +174,13 @@ class BleAccessory:
             client.exchange = ex
             self.exchanges.append(ex)
             reply = ex.m1(items)
+            if getattr(self, "verify_mode", "ok") == "bad_sig" and not ex.resumed:
+                # an impostor: right identifier, signature by a key that is not the paired accessory's
+                from cryptography.hazmat.primitives.asymmetric import ed25519 as _ed
+
+                forged = _ed.Ed25519PrivateKey.from_private_bytes(bytes(range(32))).sign(ex.acc_pk + self.identity.pairing_id + ex.ios_pk)
+                sub = reftlv.encode([(1, self.identity.pairing_id), (10, forged)])
+                reply = [(6, b"\x02"), (3, ex.acc_pk), (5, refpv.seal(ex.session_key, b"PV-Msg02", sub))]
             if ex.resumed:
                 self._install(client, ex)
         elif state == b"\x03" and client.exchange is not None and not client.exchange.resumed:
@@ -399,6 +406,29 @@ async def c01_sessions(ctx) -> None:
                     ctx.violation("ble-resume-reuses-key", "the resumed session uses the previous session's key", replay)
                     continue
             ctx.count("ble_end_to_end_sessions")
+        finally:
+            await w.close()
+        # ---- an impostor answers pair-verify (forged M2); the operation fails - and so does the NEXT one on the same link:
+        # nothing but pair-verify ever reaches the unverified peer ----
+        w = BleWorld(ctx.grng("C01.ble-impostor", idx))
+        w.accessory.verify_mode = "bad_sig"
+        w.accessory.allow_resume = False
+        replay = {"kind": "ble", "idx": idx}
+        ctx.case("ble-impostor", idx, sample={"kind": "ble impostor, two operations on the link"}, kind="ble")
+        try:
+            outcomes = []
+            for n in range(3):
+                try:
+                    r = await asyncio.wait_for(w.pairing.get_characteristics([(1, 11)]), 120)
+                    outcomes.append(("returned", r))
+                except Exception as ex:  # noqa: BLE001
+                    outcomes.append(("raised", type(ex).__name__))
+            acc = w.accessory
+            leaked = [(r["opcode"], r["iid"]) for r in acc.requests if r["iid"] != 21]
+            if leaked or acc.sessions or any(o[0] == "returned" for o in outcomes):
+                ctx.violation("request-sent-to-unverified-peer", f"BLE: pair-verify was answered with a forged M2; operations ended {outcomes}; the unverified peer received HAP requests (opcode, iid) {leaked[:4]} (sessions installed: {len(acc.sessions)})", replay)
+            else:
+                ctx.count("ble_impostor_probes")
         finally:
             await w.close()
 
